@@ -58,6 +58,37 @@ def render(v):
     return path_of(v)
 
 
+def fmt_template(v):
+    """decode rustc's compact format template (argument marker, length-prefixed literals, 0 terminator) into a pattern such as {}.key.pem"""
+    v = deref(v)
+    if not (isinstance(v, Opaque) and isinstance(v.data, str) and v.data.startswith('b"')):
+        raise Unsupported("format template " + path_of(v))
+    import ast
+    raw = ast.literal_eval(v.data)
+    out, i = "", 0
+    while i < len(raw):
+        b = raw[i]
+        if b == 0:
+            break
+        if b >= 0x80:
+            out += "{}"
+            i += 1
+        else:
+            out += raw[i + 1:i + 1 + b].decode("utf-8", "replace")
+            i += 1 + b
+    return out
+
+
+def render_fmt(v):
+    v = deref(v)
+    if isinstance(v, Opaque) and v.what == "fmt":
+        tpl, argv = v.data
+        for a in argv:
+            tpl = tpl.replace("{}", "{" + str(a) + "}", 1)
+        return tpl
+    return render(v)
+
+
 class CliEnv(C.CsrEnv):
     def __init__(self, models, scenario):
         super().__init__(models, scenario)
@@ -65,7 +96,7 @@ class CliEnv(C.CsrEnv):
         self.n_writes = 0
 
     def resolve(self, eng, callee, args):
-        m = re.match(r"^(?:cert::)?(CertificateBuilder|CaBuilder|EndEntityBuilder|Ca|EndEntity|KeyPairAlgorithm)::(\w+)$", callee)
+        m = re.match(r"^(?:cert::)?(CertificateBuilder|CaBuilder|EndEntityBuilder|Ca|EndEntity|KeyPairAlgorithm|PemCertifiedKey)::(\w+)$", callee)
         if m:
             ty, meth = m.group(1), m.group(2)
             cands = []
@@ -191,10 +222,29 @@ class CliEnv(C.CsrEnv):
             return one(Opaque("pem-of", deref(args[0])))
         if re.match(r"^(rcgen::)?KeyPair::serialize_pem$", c):
             return one(Opaque("key-pem-of", deref(args[0])))
-        if re.match(r"^(cert::)?PemCertifiedKey::write$", c):
-            self.n_writes = 1 + len([e for e in st.events if e[0] == "write"])
-            st.events.append(("write", deref(args[0]), path_of(args[1]), path_of(args[2])))
-            return result(z3.Bool(f"write_ok_{self.n_writes}"), UNIT, "io")
+        # --- PemCertifiedKey::write is executed for real; the file system and the formatting machinery are environment
+        if re.match(r"^(std::fs::)?create_dir_all::<", c):
+            st.events.append(("io", "create_dir_all", render(args[0])))
+            return result(z3.Bool(f"io_ok_{self.io_n(st)}"), UNIT, "io")
+        if re.match(r"^(core::fmt::rt::)?Argument::<'_>::new_display::<", c):
+            return one(Opaque("display", deref(args[0])))
+        if re.match(r"^Arguments::<'_>::new::<", c):
+            return one(Opaque("fmt", (fmt_template(args[0]), [render(x.v) for x in deref(args[1]).fields])))
+        if re.match(r"^(alloc::fmt::|std::fmt::)?format$", c) or re.match(r"^(core::hint::)?must_use::<", c):
+            return one(args[0])
+        if re.match(r"^Path::join::<", c):
+            return one(Opaque("joined", (render(args[0]), render_fmt(args[1]))))
+        if re.match(r"^(std::path::)?Path::with_extension::<", c) or re.match(r"^(std::path::)?PathBuf::(set_extension|push)::<", c) or \
+                re.match(r"^(std::path::)?Path::with_file_name::<", c):
+            return one(Opaque("path-edit", (c.split("::<")[0].split("::")[-1], render(args[0]), render_fmt(args[1]))))
+        if re.match(r"^File::create::<", c):
+            p_ = deref(args[0])
+            st.events.append(("io", "create", p_.data if isinstance(p_, Opaque) and p_.what == "joined" else render(p_)))
+            return result(z3.Bool(f"io_ok_{self.io_n(st)}"), Opaque("file", len([e for e in st.events if e[0] == "io" and e[1] == "create"])), "io")
+        if re.match(r"^<File as (std::io::)?Write>::(write_fmt|write_all|write)$", c):
+            f_ = deref(args[0])
+            st.events.append(("io", "write", f_.data if isinstance(f_, Opaque) and f_.what == "file" else render(f_), render_fmt(args[1])))
+            return result(z3.Bool(f"io_ok_{self.io_n(st)}"), UNIT, "io")
         if re.match(r"^<PathBuf as Deref>::deref$", c):
             return one(Opaque("path", path_of(args[0])))
         # --- parse_sans
@@ -224,6 +274,9 @@ class CliEnv(C.CsrEnv):
             return self.resolve(eng, callee, args)
         except Unsupported:
             return None
+
+    def io_n(self, st):
+        return len([e for e in st.events if e[0] == "io"])
 
     def collect_results(self, eng, mp, st):
         it, clo = mp.data
@@ -298,12 +351,13 @@ def ob_cli(fns):
         ob.reach = True
         pc = s2.pc
         label = f"main/ok-path-{n_ok}"
-        evs = [e for e in s2.events if e[0] in ("self_signed", "signed_by", "write")]
+        evs = [e for e in s2.events if e[0] in ("self_signed", "signed_by")]
         kinds = [e[0] for e in evs]
-        if kinds != ["self_signed", "signed_by", "write", "write"]:
-            return fail(f"main returns Ok after the calls {kinds}; expected one self_signed, one signed_by and two writes")
-        ss, sb, w1, w2 = evs
-        for v in ("self_signed_ok", "signed_by_ok", "write_ok_1", "write_ok_2"):
+        if kinds != ["self_signed", "signed_by"]:
+            return fail(f"main returns Ok after the calls {kinds}; expected one self_signed and one signed_by")
+        ss, sb = evs
+        io = [e for e in s2.events if e[0] == "io"]
+        for v in ["self_signed_ok", "signed_by_ok"] + [f"io_ok_{k + 1}" for k in range(len(io))]:
             ok, _ = _valid(ob, pc, z3.Bool(v), label + "/" + v)
             if not ok:
                 return fail(f"main returns Ok although {v.replace('_ok', '')} failed")
@@ -364,20 +418,33 @@ def ob_cli(fns):
             return fail(f"requested purposes {want_eku}, the end-entity parameters carry {render(ee_p.fields[7].v)}")
         if "DigitalSignature" not in render(ee_p.fields[6].v) or {"KeyCertSign", "CrlSign"} & set(render(ee_p.fields[6].v)):
             return fail(f"end-entity key usages are {render(ee_p.fields[6].v)}")
-        # files
-        def pair(w):
-            pck = w[1]
-            names = getattr(pck, "names", None) or []
-            if not (isinstance(pck, Agg) and {"cert_pem", "private_key_pem"} <= set(names)):
-                raise Unsupported("shape of PemCertifiedKey")
-            return render(pck.fields[names.index("cert_pem")].v), render(pck.fields[names.index("private_key_pem")].v)
-        want_ee = (f"pem-of(certificate(issued))", f"key-pem-of({render(ee_key)})")
-        want_ca = (f"pem-of(certificate(self-signed))", f"key-pem-of({render(ca_key)})")
+        # files: per pair - the directory is created, <name>.key.pem receives the key PEM, <name>.pem the certificate PEM
         want_dir = "path(opt(output))"
-        if pair(w1) != want_ee or w1[2] != want_dir or w1[3] != "payload-as_str(opt(cert_file_name))":
-            return fail(f"first file pair written: {pair(w1)} to ({w1[2]}, {w1[3]}); expected the end-entity certificate with its own key under the certificate base name")
-        if pair(w2) != want_ca or w2[2] != want_dir or w2[3] != "payload-as_str(opt(ca_file_name))":
-            return fail(f"second file pair written: {pair(w2)} to ({w2[2]}, {w2[3]}); expected the CA certificate with the CA key under the CA base name")
+
+        def want_pair(name_opt, cert, key):
+            nm = f"payload-as_str(opt({name_opt}))"
+            return [("io", "create_dir_all", want_dir),
+                    ("io", "create", (want_dir, "{display(" + nm + ")}.key.pem")), ("io", "write", None, "{display(key-pem-of(" + render(key) + "))}"),
+                    ("io", "create", (want_dir, "{display(" + nm + ")}.pem")), ("io", "write", None, "{display(pem-of(certificate(" + cert + ")))}")]
+        want_io = want_pair("cert_file_name", "issued", ee_key) + want_pair("ca_file_name", "self-signed", ca_key)
+        if len(io) != len(want_io):
+            return fail(f"file output: {len(io)} file system calls, expected {len(want_io)} (two pairs of create_dir_all / create+write / create+write)")
+        n_created = 0
+        for got, want in zip(io, want_io):
+            if got[1] != want[1]:
+                return fail(f"file output: call {got[1:]} where {want[1]} was expected")
+            if want[1] == "create":
+                n_created += 1
+                if got[2] != want[2]:
+                    return fail(f"file output: file {n_created} is created as {got[2]}; expected {want[2]} (end-entity pair under the certificate base name, CA pair "
+                                "under the CA base name, `.key.pem` for the key and `.pem` for the certificate)")
+            elif want[1] == "write":
+                if got[2] != n_created:
+                    return fail(f"file output: content written to file {got[2]} while file {n_created} was just created")
+                if got[3] != want[3]:
+                    return fail(f"file output: file {n_created} receives {got[3]}; expected {want[3]} (each certificate with the key it was issued for)")
+            elif got[2] != want[2]:
+                return fail(f"file output: directory {got[2]} created, expected {want[2]}")
     if n_ok == 0:
         ob.result, ob.reason = "inconclusive", "no Ok path of main was reached (vacuous)"
         return ob
@@ -434,6 +501,6 @@ def ob_cli(fns):
         return ob
     ob.functions = sorted(eng.stats["functions"] | eng2.stats["functions"])
     ob.result = "pass"
-    ob.battery, ob.battery_features = ("cli", 14), ["x509-parser", "pem"]
+    ob.battery, ob.battery_features = ("cli", 16), ["x509-parser", "pem"]
     ob.bound_text = f"arbitrary option values with two alternative names; the four key algorithms of the ring build; {n_ok} Ok paths of main, {n_ok2} of parse_sans"
     return ob
